@@ -12,7 +12,9 @@ mod refeval;
 mod c04;
 mod c07;
 mod c08;
+mod c09;
 mod c11;
+mod c15;
 mod graphref;
 mod c16;
 mod c18;
@@ -28,8 +30,10 @@ fn make_check(prop: &str, tier: Tier) -> Option<Box<dyn Check>> {
         "C04" => Box::new(c04::C04::new(tier)),
         "C07" => Box::new(c07::C07::new(tier)),
         "C08" => Box::new(c08::C08::new(tier)),
+        "C09" => Box::new(c09::C09::new(tier)),
         "C11" => Box::new(c11::C11::new(tier)),
         "C18" => Box::new(c18::C18::new(tier)),
+        "C15" => Box::new(c15::C15::new(tier)),
         "C16" => Box::new(c16::C16::new(tier)),
         _ => return None,
     })
